@@ -20,7 +20,7 @@ META: Dict[str, Any] = {
     "level": "exploration",
     "pools": [{"backend": "c"}, {"backend": "c", "optimize": 1}],
     "tiers": {
-        "quick": {"runs": 76000, "chunk": 1000, "wall": 200, "chunk_wall": 240},
+        "quick": {"runs": 92000, "chunk": 1000, "wall": 200, "chunk_wall": 240},
         "thorough": {"runs": 4000000, "chunk": 4000, "wall": 900, "chunk_wall": 600},
     },
     "selftest_runs": 6,
@@ -30,7 +30,7 @@ META: Dict[str, Any] = {
              "operations (pop on empty or out of range, remove of an absent item, item without "
              "short_name, extend from an iterator that raises after k items) and a read-only "
              "`inspect` operation (dir, repr, ==, in, index, slicing, reversed, hasattr). The first runs "
-             "enumerate ALL histories of depth 4 (quick) / 5 (thorough) over a 15-operation "
+             "enumerate ALL histories of depth 4 (quick) / 5 (thorough) over a 16-operation "
              "alphabet; the rest are random histories of length 5-60. Non-trivial: the history "
              "contains a name collision and a removal or copy. Distinct = distinct event-log digest."),
     "state_measure": "canonical (names tuple, short-name tuple) of every live list after every step",
@@ -48,12 +48,13 @@ ALPHABET: List[Tuple[str, int]] = [
     ("a", 0), ("a", 0), ("a", 1), ("b", 0), ("a_2", 0), ("a_", 0), ("class", 0), ("None", 0),
     ("1st", 0), ("_1st", 0), ("append", 0), ("keys", 0), ("get", 0), ("copy", 0), ("_item_dict", 0),
     ("a_3", 0), ("pop", 0), ("a_2", 1), ("import", 0), ("2", 0), ("items", 0), ("b", 1),
+    ("__reserved__", 0), ("__reserved__", 1), ("__len__", 0), ("__x", 0), ("_", 0), ("__dict__", 0),
 ]
 
 SYS_OPS: List[List[Any]] = [
     ["append", 0], ["append", 1], ["append", 3], ["append", 10], ["insert", 0, 0], ["insert", 0, 4],
     ["remove", 0], ["remove", -1], ["pop", -1], ["pop", 0], ["clear"], ["copy"], ["deepcopy"], ["pickle", 4],
-    ["inspect"],
+    ["inspect"], ["extend", [0], "nil"],
 ]
 
 
@@ -129,7 +130,8 @@ def gen(rs: int, index: int, tier: str) -> Dict[str, Any]:
         elif k == "insert":
             ops.append([li, "insert", r.choice([0, 0, 1, -1, 2, 5, -3, 100]), r.choice(alpha)])
         elif k == "extend":
-            ops.append([li, "extend", [r.choice(alpha) for _ in range(r.randint(0, 4))]])
+            ops.append([li, "extend", [r.choice(alpha) for _ in range(r.randint(0, 4))],
+                        r.choice(["iter", "iter", "list", "tuple", "nil", "nil"])])
         elif k == "remove":
             ops.append([li, "remove", r.choice([0, -1, 1, 2, r.randint(0, 9)])])
         elif k == "pop":
@@ -142,7 +144,7 @@ def gen(rs: int, index: int, tier: str) -> Dict[str, Any]:
             ops.append([li, "pickle", r.choice([2, 3, 4, 5])])
         elif k == "construct":
             ops.append([li, "construct", [r.choice(alpha) for _ in range(r.randint(0, 5))],
-                        r.choice(["list", "gen", "tuple"])])
+                        r.choice(["list", "gen", "tuple", "nil"])])
         elif k == "remove_absent":
             ops.append([li, "remove_absent", r.choice(alpha)])
         elif k == "pop_bad":
@@ -302,7 +304,13 @@ def execute(trace: Dict[str, Any]) -> Dict[str, Any]:
                     its = [mk(a) for a in op[2]]
                     if len(its) == 1:
                         plain.append((its[0], expected_plain(nil, its[0])))
-                    nil.extend(iter(its))
+                    how = op[3] if len(op) > 3 else "iter"
+                    if how == "nil":
+                        # the argument is itself a named item list (with its own, independently made-unique names)
+                        arg: Any = NIL(its)
+                    else:
+                        arg = its if how == "list" else (tuple(its) if how == "tuple" else iter(its))
+                    nil.extend(arg)
                     model.extend(its)
                 elif kind == "extend_raise":
                     its = [mk(a) for a in op[2]]
@@ -398,7 +406,8 @@ def execute(trace: Dict[str, Any]) -> Dict[str, Any]:
                     models.append(newitems)
                 elif kind == "construct":
                     its = [mk(a) for a in op[2]]
-                    src: Any = its if op[3] == "list" else (tuple(its) if op[3] == "tuple" else (x for x in its))
+                    src: Any = its if op[3] == "list" else (tuple(its) if op[3] == "tuple" else (
+                        NIL(its) if op[3] == "nil" else (x for x in its)))
                     new = NIL(src)
                     lists.append(new)
                     models.append(list(its))
@@ -499,8 +508,10 @@ def simpler_op(op: List[Any]) -> List[List[Any]]:
             out.append([op[0], "append", op[3]])
             out.append([op[0], k, op[2], 0])
     if k == "extend" and len(op[2]) > 1:
-        out.append([op[0], k, op[2][:1]])
-        out.append([op[0], k, op[2][1:]])
+        out.append([op[0], k, op[2][:1]] + op[3:])
+        out.append([op[0], k, op[2][1:]] + op[3:])
+    if k == "extend" and len(op) > 3 and op[3] != "iter":
+        out.append([op[0], k, op[2]])
     if k == "extend" and len(op[2]) == 1:
         out.append([op[0], "append", op[2][0]])
     if k in ("remove", "pop") and op[2] not in (0, -1):
